@@ -133,7 +133,7 @@ def search(ctx, n):
     seen = set()
     for f in fails:
         key = f.split()[1]
-        if key in seen: continue
+        if key in seen or len(seen) >= 3: continue      # at most three distinct failing predicates are reported
         seen.add(key)
         ctx.report('impl:' + key, 'implementation violates C41 predicate: ' + f, {'replay_cmd': '%s %d %d' % (exe, ctx.seed, n), 'failing_input': f})
 
@@ -146,7 +146,9 @@ def run(ctx):
     if dis:
         k, args, fa, fb = dis[0]
         ctx.broken.append(('correspondence:step:' + k, 'translated kernel and implementation differ: args=%s cxx=%s model=%s' % (args, fa, fb)))
+    ctx.log('translator validation done: %d disagreements' % len(dis))
     correspondence(ctx, 150 if quick else 3000)
+    ctx.log('function-object correspondence done')
     ctx.cov['rule'] = ('(a) translator validation: each of the 12 translated step kernels on arguments inside the asserted domain (0, 1, 1/2 and uniform); '
                        '(b) correspondence: per kind (Constant, Linear, Polynomial, Sinusoid, Step, raw stepAny family) generated parameters, derivative '
                        'component lists / orders around every case split (order vs degree, Sinusoid orders 0..13, Step before/at/inside/after both directions, '
